@@ -156,6 +156,9 @@ func Main(d CheckDef) {
 		if n := lib.Pick(c, d.SyncLen, d.SyncLenThorough); n != 0 && os.Getenv("VERIF_ONLY") == "" {
 			runSyncTier(c, d, n)
 		}
+		if d.Oracles.Snapshot && os.Getenv("VERIF_ONLY") == "" && c.Shard == 0 {
+			runSchemaSnapshots(c)
+		}
 		if os.Getenv("VERIF_SYNC_ONLY") != "" {
 			return
 		}
